@@ -78,6 +78,15 @@ class Report:
                 continue
             path = self._write_replay(sig, what, replay)
             viol.append((sig, what, path))
+        if os.environ.get("VERIF_ACCEPT_KNOWN") == "1" and viol:
+            # developer tool (`verif.py accept <id>`), never used by a registered command: record the current
+            # unlisted failures as known findings after they have been reviewed
+            with open(KNOWN, "a") as f:
+                for sig, what, path in viol:
+                    f.write(json.dumps({"property": self.pid, "signature": sig, "what": what, "status": "known"}) + "\n")
+            print("accepted %d findings into %s" % (len(viol), KNOWN))
+            knownhits += [(sig, what) for sig, what, _ in viol]
+            viol = []
         for sig, what in knownhits:
             print("KNOWN-FINDING: property=%s %s [%s]" % (self.pid, what, sig))
         for sig, what, path in viol:
